@@ -169,7 +169,7 @@ class LifeDomain(Domain):
     def resolve_call(self, st, call, walker):
         r = walker.default_resolve(st, call)
         if r is None:
-            return None
+            return walker.resolve_helper(st, call)
         f = r[0]
         if f.name in self.PRIMITIVES:
             return None
